@@ -205,6 +205,10 @@ def run(prog, rep, tier='quick', config='default'):
                 continue
             if x.short in FILTERS:
                 bad = (x, '%s() on the delta list' % x.short)
+            if x.short in ('sort', 'sort_by', 'sort_by_key', 'sort_unstable', 'sort_unstable_by', 'sort_unstable_by_key', 'sort_by_cached_key',
+                           'reverse', 'swap', 'rotate_left', 'rotate_right', 'select_nth_unstable'):
+                bad = (x, '%s() re-orders the delta list: the cost pass relies on each security\'s deltas arriving in processing order '
+                          '(the last one of a day is its closing cost; a generated adjustment compares equal to its sale)' % x.short)
             if x.short in ('append', 'extend', 'push', 'extend_from_slice') and len(x.args) > 1:
                 n_feed += 1
                 o = mir.provenance(f, x.args[1], follow_all_call_args=True)
@@ -214,8 +218,8 @@ def run(prog, rep, tier='quick', config='default'):
         if bad:
             x, why = bad
             rep.violation('R17g', k, where=x.where(), fn=f.name,
-                          detail='%s: transactions of other affiliates (or whatever else is dropped) never reach the cost pass, so they are neither '
-                                 'counted nor listed as ignored' % why)
+                          detail=(why if 're-orders' in why else '%s: transactions of other affiliates (or whatever else is dropped) never reach the cost '
+                                  'pass, so they are neither counted nor listed as ignored' % why))
         elif n_feed == 0:
             rep.violation('R17g', k, where=c.where(), fn=f.name, detail='anchor lost: nothing is appended to the delta list handed to the cost tables')
         else:
